@@ -12,4 +12,12 @@ PROPS = {
         level_note="Trusted: Lean kernel; that Model/Command.lean renders command.go faithfully (checked differentially, exhaustively up to the stated size, not proved); strings.ToLower is a model parameter (theorems hold for any function) instantiated with Go's own result; factgen for the separator constant.",
         assumptions=["strings.ToLower is a parameter of the model: every theorem holds for any lower-casing function; the driver is given Go's own strings.ToLower(s) with each case"],
     ),
+    "C13": dict(
+        props_module="Ucan.Props.C13",
+        streams=["glob"],
+        technique="Lean 4 proof that the single-backtrack-point matcher decides the inductively defined glob language for every pattern and string; model tied to the code by an exhaustive small-alphabet differential run through policy.Like/Match",
+        level_text="C13_globMatch_iff_Lang: for every token list and every byte string the matcher (literal run / backtrack rendering of the Go loop) returns true iff the string is in the inductively defined language (star = any split, literal = itself); C13_parse_reject_iff: patterns are rejected exactly when they end in a lone backslash; escape rules stated as equations. Go's policy.Like+Match is compared with model and spec on every pair over {a,b,*,\\} up to length 4 (5 thorough) and on random longer/multi-byte pairs.",
+        level_note="Trusted: Lean kernel; that Model/Glob.lean (token-level litRun/scan) takes the same decisions as the index-level loop of glob.go — checked differentially (exhaustive up to the stated size), not proved.",
+        assumptions=["like on a non-string value is false (part of the C11 model)"],
+    ),
 }
